@@ -124,3 +124,27 @@ def run(ctx):
     # and the settings are the calling scheduler's own
     vals = {const_str(k): src(v) for k, v in zip(rc.value.keys, rc.value.values) if k is not None}
     r4.check(vals.get("dryrun") == "scheduler._dryrun" and vals.get("cache") == "scheduler._use_cache", f"{m.rel}:subrun:run_config-values", f"run_config does not carry the calling scheduler's dryrun/cache settings: {vals}", m.rel, rc.lineno)
+
+    # ---- C38.5 code changes inside the sub-workflow invalidate the cached subrun -------------------
+    # _subrun_root_task is replayed by ULTIMATE reduction under a SHALLOW validity check: the backend compares the CallSubtreeTask rows of its
+    # call node with the current task hashes.  Those rows come from Job.subtree_tasks, which only the *parent* scheduler's jobs feed; the
+    # tasks executed by the sub-scheduler never reach it unless the result carries them back.  (Expression hashes use task names, not task
+    # hashes, so the arguments of _subrun_root_task do not change with the code either.)
+    r5 = ctx.rule("C38.5", "tasks executed by the sub-scheduler are part of the cached subrun's subtree (or ultimate reduction is not allowed)", floor=1)
+    ao = next((n for n in ast.walk(sr) if isinstance(n, (ast.Assign, ast.AnnAssign)) and src(n.targets[0] if isinstance(n, ast.Assign) else n.target) == "all_options" and isinstance(n.value, ast.Dict)), None)
+    if ao is None:
+        raise AnalysisError("subrun: `all_options = {...}` not found", "subrun")
+    acr = next((src(v) for k, v in zip(ao.value.keys, ao.value.values) if k is not None and const_str(k) == "allowed_cache_results"), "")
+    ultimate = "ULTIMATE" in acr
+    carries = any(("subtree" in src(n) or "task_hashes" in src(n)) for n in ast.walk(rt) if isinstance(n, (ast.Assign, ast.Subscript, ast.Dict)))
+    merges = any("subtree_tasks" in src(n) for n in ast.walk(sr) if isinstance(n, (ast.Call, ast.Assign, ast.AugAssign)))
+    expr_hash_uses_task_hash = "self.task.hash" in src(repo.mod("redun/expression.py").func("TaskExpression._calc_hash")) or "task_hash" in src(repo.mod("redun/expression.py").func("TaskExpression._calc_hash"))
+    r5.check(
+        (not ultimate) or (carries and merges) or expr_hash_uses_task_hash,
+        f"{m.rel}:_subrun_root_task:ultimate-cache-without-subtree",
+        f"subrun allows {acr} for _subrun_root_task with a shallow validity check, but neither does _subrun_root_task return the hashes of the tasks the sub-scheduler "
+        "executed nor does subrun add them to the calling job's subtree_tasks, and the quoted expression argument is hashed by task *name*: after the code of a task inside the "
+        "sub-workflow changes, the recorded call node still lists only subrun_root_task, the shallow check passes and the stale result is replayed (direct evaluation re-runs the changed task)",
+        m.rel,
+        ao.lineno,
+    )
